@@ -231,6 +231,26 @@ std::string guarded(F f, bool safetyOnly){
 	return "";
 }
 
+// scalar readers Data<int>, Data<unsigned int>, Data<double>
+template<class T>
+std::string runCsv1(std::string const& bytes, char comment, std::size_t maxB, bool safetyOnly){
+	shark::Data<T> data;
+	std::string e = guarded([&]{ shark::csvStringToData(data, bytes, ',', comment, maxB); }, safetyOnly);
+	if(!e.empty()) return e;
+	std::ostringstream os, vals; std::size_t n = 0;
+	os << "ok batches=[";
+	for(std::size_t b = 0; b != data.numberOfBatches(); ++b){
+		if(b) os << ","; os << data.batch(b).size();
+		for(std::size_t i = 0; i != data.batch(b).size(); ++i){ if(n++) vals << ","; vals << val(double(data.batch(b)(i))); }
+	}
+	os << "] values=[" << vals.str() << "]";
+	std::string out = safetyOnly ? "safety-only" : os.str();
+	if(n != data.numberOfElements()) out += " !oracle numberOfElements-inconsistent";
+	if(maxB) for(std::size_t b = 0; b != data.numberOfBatches(); ++b)
+		if(data.batch(b).size() > maxB){ out += " !oracle batch-larger-than-requested"; break; }
+	return out;
+}
+
 template<class D>
 std::string runCsvU(std::string const& bytes, char sep, char comment, std::size_t maxB, bool safetyOnly){
 	D data;
@@ -385,6 +405,13 @@ int main(int argc, char** argv){
 			if( sparse && !cls &&  f32) out = runSvm<LabeledData<CompressedFloatVector, FloatVector> >(bytes, dims, bs, safety);
 		}
 		if(t[0] == "rt" && t.size() >= 8) out = runRt(t);
+		if(t[0] == "csv1" && t.size() == 6){
+			char comment = char(std::stoul(t[2])); std::size_t maxB = std::stoull(t[3]); bool safety = t[4] == "S";
+			std::string bytes = unhex(t[5]);
+			if(t[1] == "int") out = runCsv1<int>(bytes, comment, maxB, safety);
+			if(t[1] == "uint") out = runCsv1<unsigned int>(bytes, comment, maxB, safety);
+			if(t[1] == "f64") out = runCsv1<double>(bytes, comment, maxB, safety);
+		}
 		if(t[0] == "csv" && t.size() == 10){
 			bool f32 = t[2] == "f32", safety = t[8] == "S";
 			LabelPosition lp = t[3] == "F" ? FIRST_COLUMN : LAST_COLUMN;
